@@ -474,7 +474,8 @@ func errorDisciplineGen(call *ssa.Call, significant func(*ssa.Call) bool) string
 		for i := fromInstr; i < len(b.Instrs); i++ {
 			switch x := b.Instrs[i].(type) {
 			case *ssa.Call:
-				if x != call && significant(x) {
+				if significant(x) {
+					// reaching the call itself again (around a loop) with its error still pending overwrites that error
 					problems = append(problems, fmt.Sprintf("%s is called while the error of %s may still be pending", callName(x), sc.Name()))
 					return
 				}
